@@ -824,6 +824,7 @@ func lemmaCreateThenMapQueue(data []byte, cap uint32) {
 //@   requires[C01,C02] wfList(b)
 //@   assume   *b.counter < 2147483647 && *b.counter > -2147483648
 //@   at call? sync/atomic.AddInt32#1 hint[C01,C02] *b.size == old(*b.size) - 1 && old(*b.size) >= 1 && remain == old(*b.size) - 1
+//@   at call sync/atomic.CompareAndSwapUint32#0 hint[C01,C02] 0 <= oldHead && oldHead + b.gstride <= len(b.bufferRegion) && b.gstride == *b.capPerBuffer + 20 && oldHead + 20 + *b.capPerBuffer < 4294967296
 //@   at call sync/atomic.CompareAndSwapUint32#0 hint[C01,C02] oldHead == old(b.chain[b.cs]) && b.n >= 2 && mem32(b.bufferRegion, oldHead + 12) == b.chain[b.cs + 1] && mem32(b.bufferRegion, oldHead + 4) == 0 && mem32(b.bufferRegion, oldHead + 8) == 0 && mem32(b.bufferRegion, oldHead) == b.gstride - 20
 //@   at call newBufferSlice#0 hint[C01,C02] mem32(b.bufferRegion, oldHead + 4) == 0 && mem32(b.bufferRegion, oldHead + 8) == 0 && mem32(b.bufferRegion, oldHead) == b.gstride - 20
 //@   at call? sync/atomic.CompareAndSwapUint32#0 ghost b.held[oldHead] := ite(r0, true, b.held[oldHead])
